@@ -67,7 +67,7 @@ Theorem select_is_its_segments kin wa_ sq_ ali c withs d sels from joins wh hv g
 Proof.
   intros Hs. rewrite rquery_QSel. unfold sel_text, sel_segs, finish.
   destruct (name_from sub_count 0 from) as [fnames n1].
-  destruct (name_joins (base_tables from) n1 joins) as [jnames n2].
+  destruct (name_joins (base_tables from) (src_names from fnames ++ map fst withs) n1 joins) as [jnames n2].
   destruct sels as [|s0 sels']; [exfalso; apply Hs; reflexivity|].
   set (SL := s0 :: sels').
   repeat match goal with
@@ -180,7 +180,7 @@ Lemma seg_groups_spec k kk srcs ci aref l ss :
   seg_groups k kk srcs ci aref l = Ok ss <->
   Forall2 (fun y s => match (if k_gba k then aref y else None) with
                       | Some a => s = fq (or_ostr (aq (kc k)) (q (kc k))) a
-                      | None => ritem (mk_k (kc kk) (k_abs kk) true) srcs (ci false clause_subq_groupby) y = Ok s end) l ss.
+                      | None => ritem kk srcs (ci false clause_subq_groupby) y = Ok s end) l ss.
 Proof.
   revert ss. induction l as [|y r IH]; intros ss; cbn [seg_groups].
   - split; [intros H; inversion H; constructor | intros H; inversion H; reflexivity].
